@@ -99,10 +99,20 @@ func (f *Frame) HasImage() bool {
 
 // toNRGBA converts any image.Image to *image.NRGBA.
 func toNRGBA(src image.Image) *image.NRGBA {
-	if nrgba, ok := src.(*image.NRGBA); ok {
-		return nrgba
-	}
 	b := src.Bounds()
+	if nrgba, ok := src.(*image.NRGBA); ok {
+		// Callers index Pix directly, assuming origin (0,0) and a tight stride.
+		// That holds for decoded frames, but not for views such as SubImage.
+		if b.Min == (image.Point{}) && nrgba.Stride == 4*b.Dx() {
+			return nrgba
+		}
+		dst := image.NewNRGBA(image.Rect(0, 0, b.Dx(), b.Dy()))
+		for y := 0; y < b.Dy(); y++ {
+			off := nrgba.PixOffset(b.Min.X, b.Min.Y+y)
+			copy(dst.Pix[y*dst.Stride:y*dst.Stride+4*b.Dx()], nrgba.Pix[off:off+4*b.Dx()])
+		}
+		return dst
+	}
 	dst := image.NewNRGBA(image.Rect(0, 0, b.Dx(), b.Dy()))
 	for y := b.Min.Y; y < b.Max.Y; y++ {
 		for x := b.Min.X; x < b.Max.X; x++ {
